@@ -46,6 +46,10 @@ type c10exp struct {
 }
 
 func c10Worker(w *W) {
+	if w.Spec.Kind == "conc" {
+		c10ConcWorker(w)
+		return
+	}
 	c01init()
 	registerMonitorPlugins()
 	tag := log.RegisterTag("c10tag")
@@ -442,8 +446,9 @@ func init() {
 		ID: "C10", Level: "exploration", MinDistinct: 500, Worker: c10Worker,
 		Rule: "cross product of 24 call forms (14 fixed-level entry points + Record at 10 levels incl. custom and NONE) x 8 subsets of the three hooks set x 5 contexts (Background, TODO, value chain, cancelled, nil) under: the built-in logger before any Refresh and again right after Destroy of a restrictive configuration, and Refresh-built sync, async(Block) and rolling-file loggers x enableCaller on/off x fastCaller on/off x 10 logger level ranges chosen so that every level is enabled in some and disabled in others " +
 			"(quick: the cross product under each Refresh is strided, the before-Refresh state is complete). Monitors: counting closures per call (hooks, lazy generator, identity of the context they receive), recording appender / console collector for the emitted record (hook time or [before,after] bracket, context string, context fields ahead of call fields). " +
+			"A second worker kind keeps the three hooks installed while 4-32 goroutines log concurrently (150 calls each per round, call form / tag / level drawn per call) through a sync logger, an async (Block, capacity 128) logger and a configured root whose level ranges and caller-lookup modes are redrawn every round; each call's context carries its own atomic counters and hook results, so counts, context identity and the record's time / context string / field order are judged per call; one quarter of these workers runs under the race detector, others under GOMAXPROCS/GOGC variants. " +
 			"One further scenario keeps six events in flight in an asynchronous logger (gated appender) while the context-fields hook returns one shared immutable slice with spare capacity: every record must carry the hook's fields followed by its own. Non-trivial/distinct = distinct (state, call form, enabled/disabled, hook subset, context kind) tuples whose counts were right.",
-		Assumptions: []string{"hooks are swapped between calls by the harness while no log call is in progress (single goroutine)", "the wall-clock bracket for unset TimeNow is widened by 1 ms on both sides (monotonic vs wall clock reading)"},
+		Assumptions: []string{"hooks are swapped by the harness only while no log call is in progress (matrix kind: between calls of one goroutine; concurrent kind: before the goroutines start)", "the wall-clock bracket for unset TimeNow is widened by 1 ms on both sides (monotonic vs wall clock reading)"},
 		Run: func(d *D) {
 			var specs []Spec
 			for i := 0; i < 16; i++ {
@@ -451,7 +456,21 @@ func init() {
 				s.N = d.Pick(1, 1)
 				specs = append(specs, s)
 			}
-			d.RunWorkers(specs, 16)
+			// the same question under concurrency (hooks installed once, per-call counters travel in the context)
+			for i := 0; i < int(d.Pick(4, 16)); i++ {
+				s := d.NewSpec("conc", fmt.Sprintf("conc-%d", i), 100+i, 16)
+				s.N = d.Pick(6, 40)
+				s.Args["g"], s.Args["m"] = fmt.Sprint([]int{8, 16, 4, 32}[i%4]), "150"
+				if i%4 == 3 {
+					s.Flavour = "race"
+					s.N = d.Pick(3, 12)
+					s.Args["g"], s.Args["m"] = "8", "80"
+				}
+				specs = append(specs, s)
+			}
+			specs = d.WithRuntimeVariants(specs, int(d.Pick(2, 1)), func(s Spec) bool { return s.Kind == "conc" })
+			outs := d.RunWorkers(specs, 16)
+			d.raceVerdict(outs)
 		},
 	})
 }
